@@ -5,18 +5,20 @@ UNITS = {
 PROPS = {
     "C18": dict(
         level="exploration",
-        technique="property-based testing (rapid): generated pods x PodNetworkings x namespaces x cluster configurations through the real admission entry points over controller-runtime's fake client; returned RFC 6902 patch applied by an independent implementation (evanphx/json-patch; the webhook builds patches with gomodules.xyz/jsonpatch); result checked sentence by sentence against the statement with harness-side selector evaluation and vSwitch-zone ground truth",
-        rule="one case = one cluster (trunk, IPAM type, resource injection, eni-config, 1-3 namespaces, 0-5 PodNetworkings admitted through the real PodNetworking hooks, optional previous PodENI) and one pod (host network, ignore label, 0-3 containers, owners, labels, the three network annotations alone/in conflict/malformed, 0-4 networks with interface names of 0-8 characters, 0-12 security groups, allocation types, pre-existing affinity and device requests); non-trivial = the pod is marked pod-eni=true, or denied for a reason other than malformed annotation JSON; distinct = distinct scenario hash",
+        technique="property-based testing (rapid): generated pods x PodNetworkings x namespaces x cluster configurations through the real admission entry points over controller-runtime's fake client; returned RFC 6902 patch applied by an independent implementation (evanphx/json-patch; the webhook builds patches with gomodules.xyz/jsonpatch); result checked sentence by sentence against the statement with harness-side selector evaluation and vSwitch-zone ground truth; the emitted required node affinity is evaluated with scheduler semantics (terms ORed, match expressions ANDed) over the zone universe",
+        rule="one case = one cluster (trunk, IPAM type, resource injection, eni-config, 1-3 namespaces, 0-5 PodNetworkings admitted through the real PodNetworking hooks, optional PodENI left by an earlier incarnation of the pod: with/without allocations, being deleted or not, zone inside or outside the current vSwitch zones) and one pod (host network, ignore label, 0-3 containers, owners, labels, the three network annotations alone/in conflict/malformed, 0-4 networks with interface names of 0-8 characters, 0-12 security groups, allocation types, pre-existing affinity and device requests); non-trivial = the pod is marked pod-eni=true, or denied for a reason other than malformed annotation JSON; distinct = distinct scenario hash",
         assumptions=[
             "PodNetworkings in the cluster are those the real mutating+validating PodNetworking handlers admit; their status lists every vSwitch of the spec with its true zone",
             "the eni-config ConfigMap, when present, names at least one vSwitch and one security group",
             "custom stateful workload kinds (a process-wide list that can only grow) are not exercised: stable name = no owner or a StatefulSet owner",
         ],
         level_text="the real handlers are executed on generated inputs and every response is applied and checked against an oracle that restates the property; exploration of a bounded input space, not proof",
-        level_note="trusts k8s API types/JSON encoding, the fake client and evanphx/json-patch as the reference applier; HTTP/TLS serving, the API server's own patch application and envtest-level wiring are not exercised; zone affinity is checked as 'every zone value added is a zone in which each requested network has a vSwitch' (an empty intersection yields no affinity and is only counted)",
+        level_note="trusts k8s API types/JSON encoding, the fake client and evanphx/json-patch as the reference applier; HTTP/TLS serving, the API server's own patch application and envtest-level wiring are not exercised; zone affinity is checked twice: every zone value the webhook adds is a zone in which each requested network has a vSwitch or the recorded previous zone of a fixed-IP pod; and, where the networks come from PodNetworking definitions and the webhook emitted a zone requirement, every zone the resulting affinity admits (scheduler semantics) is a zone in which each requested network has a vSwitch. A pod for which the webhook emits no zone requirement at all (bare vSwitch ids, DaemonSet, empty intersection without previous zone) is only counted. Pinning to the previous zone itself is not asserted: the statement does not claim it",
         tests=[
             dict(unit="webhook", test="TestVerifC18Webhook", quick=10000, thorough=500000),
             dict(unit="webhook", test="TestVerifC18KnownWitnessNoVSwitch", quick=1, thorough=1,
+                 shards_quick=1, shards_thorough=1),
+            dict(unit="webhook", test="TestVerifC18KnownWitnessDisjointPrevPin", quick=1, thorough=1,
                  shards_quick=1, shards_thorough=1),
         ],
     ),
